@@ -725,7 +725,7 @@ func astFromValue(value interface{}, ttype Type) ast.Value {
 	// Convert Golang slice to GraphQL list. If the Type is a list, but
 	// the value is not an array, convert the value using the list's item type.
 	if ttype, ok := ttype.(*List); ok {
-		if valueVal.Type().Kind() == reflect.Slice {
+		if valueVal.Type().Kind() == reflect.Slice || valueVal.Type().Kind() == reflect.Array {
 			itemType := ttype.OfType
 			values := []ast.Value{}
 			for i := 0; i < valueVal.Len(); i++ {
